@@ -183,3 +183,23 @@ func specAddrSet(h *TracerouteHop) bool { return len(h.IPAddress) != 0 }
 //@ loop 1 invariant[a.into]   forall(m, 0, range_i, r.E2eProbe.RTTs[m] > 0 ==> exists(k, 0, len(validRTTs), validRTTs[k] == r.E2eProbe.RTTs[m]))
 //@ loop 2 invariant[b.len]    len(validRTTs) == r.E2eProbe.PacketsReceived
 //@ loop 2 invariant[b.rng]    forall(k, 0, range_i, minRTT <= validRTTs[k] && validRTTs[k] <= maxRTT)
+
+// ---- C18: enrichment attaches to every destination and hop exactly names the resolver returned for that very address
+// (or nothing when the lookup failed / the hop did not answer) and changes nothing else in the document.
+
+// specNamesFor: names is empty, or a slice the resolver returned for the address ip.
+//@ func (*Results).EnrichWithReverseDns
+//@ safety C18
+//@ requires[pre.wf]         r != nil && forall(i, 0, len(r.Traceroute.Runs), forall(j, 0, len(r.Traceroute.Runs[i].Hops), r.Traceroute.Runs[i].Hops[j] != nil))
+//@ requires[pre.cache.inv]  forallstr(k, cached("reverse-dns-"+k) ==> cachedAs("reverse-dns-"+k, []string) && dnsAns(k, cachedval("reverse-dns-"+k, []string)))
+//@ ensures[C18.enrich.dest] forall(i, 0, len(r.Traceroute.Runs), r.Traceroute.Runs[i].Destination.ReverseDns == nil || dnsAns(iptext(string(r.Traceroute.Runs[i].Destination.IPAddress)), r.Traceroute.Runs[i].Destination.ReverseDns))
+//@ ensures[C18.enrich.hops] forall(i, 0, len(r.Traceroute.Runs), forall(j, 0, len(r.Traceroute.Runs[i].Hops), r.Traceroute.Runs[i].Hops[j].ReverseDns == nil || dnsAns(iptext(string(r.Traceroute.Runs[i].Hops[j].IPAddress)), r.Traceroute.Runs[i].Hops[j].ReverseDns)))
+//@ ensures[C18.enrich.runs] len(r.Traceroute.Runs) == old(len(r.Traceroute.Runs))
+//@ modifies elemtype(TracerouteRun).Destination.ReverseDns, TracerouteHop.ReverseDns, ghost clock, ghost cache.has, ghost cache.tag, ghost cache.ref, ghost cache.exp, ghost dns.ans, ghost dns.len, ghost dns.n
+//@ loop 3 invariant[o.idx]   0 <= i && i <= len(r.Traceroute.Runs)
+//@ loop 3 invariant[o.dest]  forall(a, 0, i, (r.Traceroute.Runs[a].Destination.ReverseDns == nil || dnsAns(iptext(string(r.Traceroute.Runs[a].Destination.IPAddress)), r.Traceroute.Runs[a].Destination.ReverseDns)))
+//@ loop 3 invariant[o.hops]  forall(a, 0, i, forall(b, 0, len(r.Traceroute.Runs[a].Hops), (r.Traceroute.Runs[a].Hops[b].ReverseDns == nil || dnsAns(iptext(string(r.Traceroute.Runs[a].Hops[b].IPAddress)), r.Traceroute.Runs[a].Hops[b].ReverseDns))))
+//@ loop 4 invariant[i.idx]   0 <= i && i < len(r.Traceroute.Runs) && 0 <= j && j <= len(r.Traceroute.Runs[i].Hops)
+//@ loop 4 invariant[i.dest]  forall(a, 0, i+1, (r.Traceroute.Runs[a].Destination.ReverseDns == nil || dnsAns(iptext(string(r.Traceroute.Runs[a].Destination.IPAddress)), r.Traceroute.Runs[a].Destination.ReverseDns)))
+//@ loop 4 invariant[i.hops]  forall(a, 0, i, forall(b, 0, len(r.Traceroute.Runs[a].Hops), (r.Traceroute.Runs[a].Hops[b].ReverseDns == nil || dnsAns(iptext(string(r.Traceroute.Runs[a].Hops[b].IPAddress)), r.Traceroute.Runs[a].Hops[b].ReverseDns))))
+//@ loop 4 invariant[i.cur]   forall(b, 0, j, (r.Traceroute.Runs[i].Hops[b].ReverseDns == nil || dnsAns(iptext(string(r.Traceroute.Runs[i].Hops[b].IPAddress)), r.Traceroute.Runs[i].Hops[b].ReverseDns)))
